@@ -28,8 +28,15 @@ FMTS = [dict(n=1, c="B"), dict(n=1, c="h"), dict(n=1, c="I"), dict(n=1, c="q"), 
 SIZES = {"b": 1, "B": 1, "h": 2, "H": 2, "i": 4, "I": 4, "q": 8, "Q": 8, "x": 8}
 
 
+# formats with an explicit byte order ("<", ">", "!" x every integer letter): the abstract value of such a
+# variable is the same integer, only its bytes in the map are ordered differently - the program has to swap
+# on every load, store and in-place update.  Used in the histories (and a small TLC enumeration of their own).
+ORDERED = [dict(n=1, c=c, o=o) for o in ("<", ">", "!") for c in "bBhHiIqQ"]
+NATIVE_MORE = [dict(n=1, c=c) for c in "bHiQ"]
+
+
 def fstr(f):
-    return f["c"] if f["n"] == 1 else f"{f['n']}{f['c']}"
+    return f.get("o", "") + (f["c"] if f["n"] == 1 else f"{f['n']}{f['c']}")
 
 
 def frange(c):
@@ -64,10 +71,11 @@ def random_decl(rng):
     """a larger set than the enumeration reaches: up to 6 variables of any format"""
     n = rng.randint(4, 6)
     d = dict(base=[], derived=[], redecl=[], sub=[], nsub=0, mapin="derived")
+    pool = FMTS if rng.random() < 0.4 else FMTS + NATIVE_MORE + ORDERED + ORDERED
     for _ in range(n):
-        d[rng.choice(["base", "derived", "derived", "sub"])].append(rng.choice(FMTS))
+        d[rng.choice(["base", "derived", "derived", "sub"])].append(rng.choice(pool))
     if d["base"] and rng.random() < 0.3:
-        d["redecl"] = [dict(of=rng.randint(1, len(d["base"])), f=rng.choice(FMTS))]
+        d["redecl"] = [dict(of=rng.randint(1, len(d["base"])), f=rng.choice(pool))]
     d["nsub"] = rng.choice([1, 2]) if d["sub"] else 0
     d["mapin"] = rng.choice(["base", "derived"]) if d["base"] else "derived"
     return d
@@ -168,7 +176,13 @@ def gen_program(rng, vs, percpu):
         d = rng.choice(ids)
         fd = vs.all[d][2]
         di = rng.randrange(fd["n"])
-        kind = rng.choice(["const", "const", "copy", "copy", "add", "self"])
+        kind = rng.choice(["const", "const", "copy", "copy", "add", "self", "iadd", "iadd", "isub"])
+        if kind in ("iadd", "isub"):             # in-place update: `v += k` / `v -= k` (atomic add where it applies)
+            k = rng.choice([1, 3, 100, 255, 256, 4660, 65536]) * (M.SCALE if fd["c"] == "x" else 1)
+            if fd["c"] in "bB" and k > 100:
+                k = rng.choice([1, 3, 100])
+            stmts.append(dict(op=kind, dst=[d, di], src=[d, di], k=k))
+            continue
         if kind == "const":
             if fd["c"] == "x":
                 k = rng.choice([rng.randint(-50, 50) * M.SCALE, rng.randint(-10 ** 7, 10 ** 7)])
@@ -211,6 +225,22 @@ def emitter(vs, stmts):
             (d, di), (s, si) = st["dst"], st["src"]
             dinst, dname, df = vs.all[d]
             with ExitStack() as stack:
+                if st["op"] in ("iadd", "isub"):     # exactly what Python does for `target += k`
+                    k = st["k"] // M.SCALE if df["c"] == "x" else st["k"]
+                    if df["n"] > 1:
+                        mm, addr = elem(stack, d, di)
+                        tmp = mm[addr]
+                    else:
+                        tmp = getattr(objs[dinst], dname)
+                    if st["op"] == "iadd":
+                        tmp += k
+                    else:
+                        tmp -= k
+                    if df["n"] > 1:
+                        mm[addr] = tmp
+                    else:
+                        setattr(objs[dinst], dname, tmp)
+                    continue
                 if st["op"] == "const":
                     val = st["k"] / M.SCALE if df["c"] == "x" and st["k"] % M.SCALE else \
                         (st["k"] // M.SCALE if df["c"] == "x" else st["k"])
@@ -237,7 +267,10 @@ def tla_prog(stmts):
         return dict(k="a", id=p[0] + 1, i=p[1] + 1)
     out = []
     for st in stmts:
-        out.append(dict(op=st["op"], dst=loc(st["dst"]), src=loc(st["src"]), v=M.word(st["k"]), d=0, flags=0,
+        op, k = st["op"], st["k"]
+        if op in ("iadd", "isub"):               # `v += k` must do what `v = v + k` does
+            op, k = "add", (k if op == "iadd" else -k)
+        out.append(dict(op=op, dst=loc(st["dst"]), src=loc(st["src"]), v=M.word(k), d=0, flags="ANY",
                         body=[], els=[]))
     return out
 
@@ -352,8 +385,9 @@ def run(ctx):
     # 1. declaration sets from TLC
     allp, deep = ["base", "derived", "redecl", "sub"], ["derived", "sub"]
     small = [FMTS[0], FMTS[4], FMTS[5]]
-    decls = enumerate_decls(ctx, wd, [(FMTS, 2, allp), (small, 4, deep)] if ctx.quick
-                            else [(FMTS, 3, allp), (small, 6, deep)])
+    ordered = [f for f in ORDERED if f["o"] != "!" or f["c"] in "Iq"] + [FMTS[2], FMTS[3]]
+    decls = enumerate_decls(ctx, wd, [(FMTS, 2, allp), (small, 4, deep), (ordered, 2, ["derived"])] if ctx.quick
+                            else [(FMTS, 3, allp), (small, 6, deep), (ORDERED + FMTS, 2, deep)])
     n_enum = len(decls)
     fixed = random.Random("c08-large")
     decls += [random_decl(fixed) for _ in range(100 if ctx.quick else 600)]
